@@ -185,7 +185,9 @@ class MaintenanceInfo:
             return None
         o = json.loads(json_string)
         ret = cls()
-        ret._set({k: MaintenanceEntry(**v) for (k, v) in o.items()})
+        # fields of an entry this version does not know are skipped (forward compatibility)
+        known = ('state', 'deadline', 'expected_end')
+        ret._set({k: MaintenanceEntry(**{f: x for (f, x) in v.items() if f in known}) for (k, v) in o.items()})
         ret.finalize()
         return ret
 
